@@ -280,7 +280,7 @@ CHECKS = {
        "the left-to-right rule of the property for every program of up to 4 (thorough 6) pipelines x 3 operators x 2 status "
        "classes, plus liveness; every program is then replayed through the real binary (-c and script entry) with marker "
        "helpers and judged by which pipelines ran, the $? each saw and the exit status; the loop's hook events of every run are "
-       "validated by TLC against the same specification (TraceCmdList.tla).",
+       "validated by TLC against the same specification (TraceCmdList.tla). line_to_cmds itself is transcribed statement by statement (spec/Splitter.tla): every string over an 11-symbol alphabet up to length 4 (thorough 5) must be split by the real code exactly as by the transcription, and TLC checks that on plain lines the transcription finds the reference reader's operators.",
   design_ref="DESIGN.md 3.4, 6 (C03)",
   note="Trusted: TLC, the vmk helper (logs atomically, exits with the programmed status), non-zero statuses drawn from {1,3,255}; "
        "bounded: exhaustive to 6 pipelines, TLC-simulated programs up to 12.",
